@@ -1227,8 +1227,10 @@ struct clsrvconf *choosesrvconf(struct list *srvconfs) {
             pthread_mutex_unlock(&server->servers->lock);
             continue;
         }
-        if (server->servers->lostrqs < bestlostrqs)
+        if (server->servers->lostrqs < bestlostrqs) {
             best = server;
+            bestlostrqs = server->servers->lostrqs;
+        }
         pthread_mutex_unlock(&server->servers->lock);
     }
     /* if the best server has max lost requests, any other selectable server has too. To give
